@@ -1,6 +1,8 @@
 import props_ring
+import props_array
 SPECS = {
     "C04": props_ring.C04,
     "C09": props_ring.C09,
+    "C14": props_array.C14,
 }
 NOT_CLAIMED = {}
